@@ -201,6 +201,8 @@ pub struct Fault {
     pub at_send: i64,
     /// Fire at every `send_probe` call with index >= this (0 = never; a storm of failures).
     pub from_send: i64,
+    /// With `from_send`: stop firing at this index (exclusive); 0 = never stop.
+    pub until_send: i64,
     /// Index of the receive call (0-based) at which the fault fires, or -1.
     pub at_recv: i64,
     /// Socket operation: "send_to" | "bind" | "connect" | "set_ttl" | "read" | "select" | "new".
